@@ -216,5 +216,8 @@ func (x *Exec) writeReplay(prop string, o *Obligation, work string, timeout int)
 		}
 	}
 	os.WriteFile(path, []byte(sb.String()), 0o644)
+	if o.replayFile != "" {
+		return o.replayFile
+	}
 	return path
 }
